@@ -1335,7 +1335,6 @@ func mergeNames(a, b map[string]Val) map[string]Val {
 	return n
 }
 
-
 var pureLib = map[string]bool{
 	"errors.New": true, "fmt.Errorf": true, "strconv.Itoa": true, "strconv.FormatFloat": true, "strconv.Atoi": true,
 	"strings.Join": true, "strings.ToUpper": true, "(*os.File).WriteString": true, "fmt.Fprintf": true, "fmt.Fprintln": true,
@@ -1352,6 +1351,9 @@ func (x *Exec) callEffects(n *ast.CallExpr, info *types.Info) (allocs, ghosts bo
 	full := fn.FullName()
 	if pureLib[full] {
 		return false, false, nil
+	}
+	if full == "io.WriteString" {
+		return false, true, nil
 	}
 	if full == "(io.Writer).Write" || full == "(*bufio.Scanner).Scan" || full == "(*encoding/csv.Reader).Read" || full == "(*github.com/biogo/hts/sam.Reader).Read" {
 		return false, true, nil
@@ -1418,7 +1420,6 @@ func (x *Exec) callEffects(n *ast.CallExpr, info *types.Info) (allocs, ghosts bo
 	return true, true, []string{"*"}
 }
 
-
 // ghostHandlesIn: the channel / writer handles whose ghost state a loop body may change
 func (x *Exec) ghostHandlesIn(body ast.Node, st *State, env *Env) (all bool, handles map[string]bool) {
 	handles = map[string]bool{}
@@ -1473,6 +1474,14 @@ func (x *Exec) ghostHandlesIn(body ast.Node, st *State, env *Env) (all bool, han
 			if full == "(*github.com/biogo/hts/sam.Reader).Header" {
 				return true
 			}
+			if full == "io.WriteString" && len(n.Args) > 0 {
+				if t, ok := termOf(n.Args[0]); ok {
+					handles[t] = true
+				} else {
+					all = true
+				}
+				return true
+			}
 			if full == "(io.Writer).Write" || full == "(*bufio.Scanner).Scan" || full == "(*encoding/csv.Reader).Read" || full == "(*github.com/biogo/hts/sam.Reader).Read" {
 				if sel, ok := n.Fun.(*ast.SelectorExpr); ok {
 					if t, ok := termOf(sel.X); ok {
@@ -1518,7 +1527,6 @@ func (x *Exec) ghostHandlesIn(body ast.Node, st *State, env *Env) (all bool, han
 	return
 }
 
-
 // writtenThrough: does the loop body store into / append to / copy into the slice variable obj?
 func (x *Exec) writtenThrough(body ast.Node, obj types.Object, info *types.Info) bool {
 	found := false
@@ -1562,7 +1570,6 @@ func (x *Exec) writtenThrough(body ast.Node, obj types.Object, info *types.Info)
 	})
 	return found
 }
-
 
 // unrollRange executes a range loop with a statically known small number of iterations exactly.
 func (x *Exec) unrollRange(n *ast.RangeStmt, coll Val, trips int, keyObj, valObj types.Object, st *State, env *Env) Flow {
